@@ -5,6 +5,7 @@ import (
 	"encoding/json"
 	"os"
 	"path/filepath"
+	"regexp"
 	"strings"
 	"testing"
 
@@ -108,11 +109,14 @@ func TestProbes(t *testing.T) {
 	rt.Probe("C07-uint32-documented-as-int32", func() (bool, string) {
 		loader := openapi3.NewLoader()
 		// (the numeric exclusiveMinimum of the other finding is taken out so that the document loads)
-		doc, err := loader.LoadFromData([]byte(strings.ReplaceAll(j3, `"exclusiveMinimum":1,`, "")))
+		clean := regexp.MustCompile(`,?"exclusiveMinimum":1`).ReplaceAllString(j3, "")
+		doc, err := loader.LoadFromData([]byte(clean))
 		if err != nil {
+			t.Logf("uint32 probe: document does not load: %v", err)
 			return false, "inconclusive: " + err.Error()
 		}
 		err = doc.Validate(context.Background(), openapi3.DisableExamplesValidation())
+		t.Logf("uint32 probe: validate says %v", err)
 		return err != nil && strings.Contains(err.Error(), "int32"), "UInt32 with Default(4294967295): validator says " + errString(err)
 	})
 	rt.Probe("C07-required-header-with-default-documented-optional", func() (bool, string) {
